@@ -192,6 +192,11 @@ def main(argv=None):
         d["validated_natively"] += r["validated"]
         d["validation_diverged"] += r["validation_diverged"]
         d["obligation_instances"] += r["obligations"]
+        for kk in ("cvc5_rechecked", "cvc5_agree", "cvc5_unknown", "cvc5_disagree"):
+            d[kk] = d.get(kk, 0) + r.get(kk, 0)
+        if r.get("cvc5_errors"):
+            d.setdefault("cvc5_errors", [])
+            d["cvc5_errors"] = (d["cvc5_errors"] + r["cvc5_errors"])[:3]
         d["max_decision_depth"] = max(d["max_decision_depth"], r["max_depth"])
         errors += r["errors"]
         for reason in r.get("inconclusive_reasons", [])[:3]:
@@ -298,6 +303,10 @@ def main(argv=None):
             "functions_declared": functions,
             "functions_executed": executed,
             "solver": "z3 %s (python wheel), per-query timeout %d ms" % (core.z3.get_version_string(), core.QUERY_TIMEOUT_MS),
+            "cvc5_rechecked": sum(d.get("cvc5_rechecked", 0) for d in per_h.values()),
+            "cvc5_agree": sum(d.get("cvc5_agree", 0) for d in per_h.values()),
+            "cvc5_unknown_or_error": sum(d.get("cvc5_unknown", 0) for d in per_h.values()),
+            "cvc5_disagree": sum(d.get("cvc5_disagree", 0) for d in per_h.values()),
             "solver_queries": sum(d["solver_queries"] for d in per_h.values()),
             "solver_s": round(sum(d["solver_s"] for d in per_h.values()), 2),
             "premises": premises,
